@@ -93,8 +93,9 @@ func CompileMatch(s string) (*regexp.Regexp, error) {
 	// Convert escaped asterisks to wildcard matches.
 	s = strings.ReplaceAll(s, `\*`, ".*")
 
-	// Match to beginning & end of path.
-	s = "^" + s + "$"
+	// Match to beginning & end of path. A wildcard matches any character,
+	// including a line break that arrived percent-encoded in the request path.
+	s = "(?s)^" + s + "$"
 
 	return regexp.Compile(s)
 }
